@@ -204,8 +204,9 @@ class SList(Sym):
 class SSet(Sym):
     pytype = set
 
-    def __init__(s, items):
+    def __init__(s, items, guards=None):
         s.items = list(items)      # possibly equal elements; len() counts distinct ones
+        s.guards = list(guards) if guards is not None else [True] * len(s.items)   # element i is in the set iff guards[i]
 
 
 class SView(Sym):
